@@ -223,7 +223,8 @@ def _run_cli(text, form):
     if form == 0 and not text.lstrip().startswith('"'):
         lines.append(f'.8byte {text}')
     elif form == 1:
-        lines += [f'v_res = {text}', '.8byte v_res']
+        # as a constant: the constant has the (whole) value of its expression wherever it is used afterwards
+        lines += [f'v_res = {text}', '.8byte v_res', '.8byte v_res * 2 + v_res']
     elif form == 2:
         lines.append(f'.8byte 0 + ({text})')
     elif form == 5:
@@ -248,6 +249,12 @@ def _run_cli(text, form):
         return ('value', int.from_bytes(res.outputs['out.bin'][1:], 'little')), src, res
     if res.klass == 'accepted' and 'out.bin' in res.outputs and len(res.outputs['out.bin']) == 8:
         return ('value', int.from_bytes(res.outputs['out.bin'], 'little')), src, res
+    if form == 1 and res.klass == 'accepted' and len(res.outputs.get('out.bin', b'')) == 16:
+        v = int.from_bytes(res.outputs['out.bin'][:8], 'little')
+        again = int.from_bytes(res.outputs['out.bin'][8:], 'little')
+        if again != (3 * v) % (1 << 64):
+            return ('value', f'{v} where the constant is defined, but constant * 2 + constant = {again}'), src, res
+        return ('value', v), src, res
     if res.klass == 'accepted':
         return ('value', None), src, res
     return (res.klass, res.exit_code), src, res
